@@ -86,6 +86,8 @@ def build_cases(ctx):
     return cases, hist
 
 
+EXTRA_PROPS = {"C02": ["C02Strings"], "C01": ["C01Values"]}
+
 # toml-test files whose validity the specification leaves undecided (DESIGN.md section 3.5, class U1): none in the 1.0.0 list
 U1_CORPUS = set()
 
@@ -100,6 +102,10 @@ def run_parse(ctx, focus):
                            "TomlVerif.Gen.CheckNumbers": "table theorems: number parser arms",
                            f"TomlVerif.Props.{prop}": "property theorems"})
     audit(ctx, f"TomlVerif.Props.{prop}", f"TomlVerif/Props/{prop}.lean")
+    for extra in EXTRA_PROPS.get(prop, []):
+        if os.path.exists(os.path.join(LEAN, "TomlVerif", "Props", extra + ".lean")):
+            lake_build(ctx, [f"TomlVerif.Props.{extra}"], {f"TomlVerif.Props.{extra}": "property theorems"})
+            audit(ctx, f"TomlVerif.Props.{extra}", f"TomlVerif/Props/{extra}.lean")
     if ctx.tier == "thorough":
         leanchecker(ctx, f"TomlVerif.Props.{prop}")
     tvh = cargo_build(ctx)
